@@ -17,6 +17,21 @@ CLAIMED = {
                   "sibling contexts), structural AST recognition of the insertion mechanism, typed call-site analysis of raw lxml insertions",
         design="DESIGN.md §4 C10, appendix B.1-B.2",
     ),
+    "C11": dict(
+        level="other",
+        text="All 117 attribute declarations are paired by use with their schema attributes (existence, requiredness); for each "
+             "of the 43 simple-type classes the accepted set is computed by abstract interpretation of validate() (kinds, closed/"
+             "open rational intervals), pushed through convert_to_xml (scale, rounding mode, modulus and their order, branch "
+             "splits) and compared with the facet interval / enumeration / boolean lexical set of every paired schema simple "
+             "type - this is where measure-zero failures (360.0-epsilon rounding up to 21600000, -360.0) are visible; "
+             "convert_from_xml is abstractly evaluated on one representative lexeme per lexical alternative of the schema type "
+             "(derived from union members and pattern facets) and every enumeration token must map to a member; validate-before-"
+             "convert order and exception classes are checked structurally. Eight genuine disagreements are carried as known "
+             "findings. NOT decided: exact float rounding at individual values; string pattern facets.",
+        technique="static analysis: abstract interpretation (interval + kind + lexeme-shape domains) of the simple-type classes "
+                  "against XSD facets; attribute tables compared with schema attribute tables",
+        design="DESIGN.md §4 C11, appendix B.6",
+    ),
     "C20": dict(
         level="other",
         text="Exhaustive finite-table comparison: every BaseXmlEnum member (alias groups by integer value; tokens distinct in "
@@ -38,7 +53,7 @@ _NOT_BUILT = "decidable structural clause designed in DESIGN.md but its checker 
 NOT_APPLICABLE = {
     "C01": _NOT_BUILT, "C02": _NOT_BUILT, "C03": _NOT_BUILT, "C04": _NOT_BUILT, "C05": _NOT_BUILT,
     "C06": _NOT_BUILT, "C07": _NOT_BUILT, "C08": _NOT_BUILT, "C09": _NOT_BUILT,
-    "C11": _NOT_BUILT, "C12": _NOT_BUILT, "C13": _NOT_BUILT, "C14": _NOT_BUILT, "C15": _NOT_BUILT,
+    "C12": _NOT_BUILT, "C13": _NOT_BUILT, "C14": _NOT_BUILT, "C15": _NOT_BUILT,
     "C16": _NOT_BUILT, "C17": _NOT_BUILT, "C18": _NOT_BUILT,
     "C19": "part-name arithmetic is an equation between values of pure string functions (posixpath "
            "semantics) over all name pairs; no table, ordering or ownership fact in the source determines it; "
